@@ -215,4 +215,248 @@ theorem C11_bytes (p : Policy) (hp : Plain p.ensureInit) (input : Bytes) :
   obtain ⟨t, _, aps, _, _, hs⟩ := reread_open_tag p hp input k hk htt hne
   exact C11_sanitizeAttrs p.ensureInit k.data t.attrs aps k.attrs hs hel hhref
 
+/-! ### the target / noopener clauses -/
+
+/-- the target attributes of a list, in order (a browser uses the first) -/
+def targets (l : List Attr) : List Attr := l.filter (·.key == b!"target")
+
+/-- the first target attribute is `_blank` (ASCII case-insensitively) -/
+def FirstTargetBlank (l : List Attr) : Prop :=
+  ∃ a, (targets l).head? = some a ∧ asciiEqualFold a.val b!"_blank" = true
+
+theorem targets_fixFirstTarget (l : List Attr) :
+    targets (fixFirstTarget l) =
+      match targets l with
+      | [] => []
+      | a :: as => (if asciiEqualFold a.val b!"_blank" then a else ⟨a.key, b!"_blank"⟩) :: as := by
+  induction l with
+  | nil => rfl
+  | cons x xs ih =>
+    unfold fixFirstTarget
+    by_cases hx : (x.key == b!"target") = true
+    · simp only [hx, ↓reduceIte, targets, List.filter_cons]
+      split <;> simp [hx]
+    · have hx' : (x.key == b!"target") = false := by simpa using hx
+      simp only [hx', Bool.false_eq_true, ↓reduceIte, targets, List.filter_cons]
+      exact ih
+
+theorem targets_eq_of_filtEq {l0 l : List Attr} (h : FiltEq b!"target" l0 l) : targets l = targets l0 := h
+
+/-- the hardening block, with "some href has a host" named `hasHostHref` -/
+theorem hardenLinks_eq (p : Policy) (el : Bytes) (clean : List Attr) :
+    p.hardenLinks el clean =
+      (let externalLink := hasHostHref clean
+       if (clean.filter (·.key == b!"href")).isEmpty then clean else
+       let addNoFollow := p.requireNoFollow || (externalLink && p.requireNoFollowFullyQualifiedLinks)
+       let addNoReferrer := p.requireNoReferrer || (externalLink && p.requireNoReferrerFullyQualifiedLinks)
+       let addTargetBlank := externalLink && p.addTargetBlankToFullyQualifiedLinks
+       let isA := el == b!"a"
+       let hasRel := clean.any (·.key == b!"rel")
+       let hasTarget := clean.any (·.key == b!"target")
+       let out := clean.map (relFix addNoFollow addNoReferrer)
+       let out := if isA && addTargetBlank then fixFirstTarget out else out
+       let out :=
+         if (addNoFollow || addNoReferrer) && !hasRel then out ++ [⟨b!"rel", newRelValue addNoFollow addNoReferrer⟩]
+         else out
+       let blankFound := isA &&
+         ((clean.any fun a => a.key == b!"target" && asciiEqualFold a.val b!"_blank") || (addTargetBlank && hasTarget))
+       let out := if isA && addTargetBlank && !blankFound then out ++ [⟨b!"target", b!"_blank"⟩] else out
+       if blankFound || (isA && addTargetBlank) then addNoOpener out else out) := rfl
+
+/-- with AddTargetBlankToFullyQualifiedLinks and a host-qualified href, the hardening block leaves
+    an `a` element whose first target attribute is `_blank` -/
+theorem hardenLinks_target (p : Policy) (clean : List Attr)
+    (hhref : (clean.filter (·.key == b!"href")).isEmpty = false)
+    (htb : (hasHostHref clean && p.addTargetBlankToFullyQualifiedLinks) = true) :
+    FirstTargetBlank (p.hardenLinks b!"a" clean) := by
+  rw [hardenLinks_eq]
+  have hext : hasHostHref clean = true := by simp only [Bool.and_eq_true] at htb; exact htb.1
+  have hopt : p.addTargetBlankToFullyQualifiedLinks = true := by simp only [Bool.and_eq_true] at htb; exact htb.2
+  simp only [hhref, Bool.false_eq_true, ↓reduceIte, hext, hopt, beq_self_eq_true, Bool.true_and, Bool.and_true, Bool.or_true,
+    Bool.and_self]
+  -- the stages, read through `targets`
+  generalize hnf : (p.requireNoFollow || p.requireNoFollowFullyQualifiedLinks) = nf
+  generalize hnr : (p.requireNoReferrer || p.requireNoReferrerFullyQualifiedLinks) = nr
+  have t0 : targets (clean.map (relFix nf nr)) = targets clean :=
+    targets_eq_of_filtEq (filtEq_relFix (by decide) nf nr (filtEq_refl _ clean))
+  have t1 := targets_fixFirstTarget (clean.map (relFix nf nr))
+  rw [t0] at t1
+  generalize ho1 : fixFirstTarget (clean.map (relFix nf nr)) = o1 at t1
+  have t2 : targets (if ((nf || nr) && !clean.any fun x => x.key == b!"rel") = true then o1 ++ [⟨b!"rel", newRelValue nf nr⟩] else o1) = targets o1 := by
+    split
+    · simp [targets, List.filter_append]
+    · rfl
+  generalize ho2 : (if ((nf || nr) && !clean.any fun x => x.key == b!"rel") = true then o1 ++ [(⟨b!"rel", newRelValue nf nr⟩ : Attr)] else o1) = o2 at t2
+  by_cases hany : clean.any (fun x => x.key == b!"target") = true
+  · -- a target attribute is there: the first one is fixed
+    simp only [hany, Bool.or_true, Bool.not_true, Bool.false_eq_true, ↓reduceIte]
+    have t3 : targets (addNoOpener o2) = targets o2 :=
+      targets_eq_of_filtEq (filtEq_addNoOpener (by decide) (filtEq_refl _ o2))
+    unfold FirstTargetBlank
+    rw [t3, t2, t1]
+    have hne : targets clean ≠ [] := by
+      obtain ⟨a, ha, hk⟩ := List.any_eq_true.mp hany
+      intro he
+      have : a ∈ targets clean := List.mem_filter.mpr ⟨ha, hk⟩
+      rw [he] at this; simp at this
+    cases hc : targets clean with
+    | nil => exact absurd hc hne
+    | cons a as =>
+      simp only [List.head?_cons]
+      by_cases hf : asciiEqualFold a.val b!"_blank" = true
+      · exact ⟨a, by simp [hf], hf⟩
+      · exact ⟨⟨a.key, b!"_blank"⟩, by simp [hf], asciiEqualFold_refl _⟩
+  · -- no target attribute: one is appended
+    have hany' : clean.any (fun x => x.key == b!"target") = false := by simpa using hany
+    have hnb : (clean.any fun a => a.key == b!"target" && asciiEqualFold a.val b!"_blank") = false := by
+      rw [List.any_eq_false] at hany' ⊢
+      intro a ha
+      have := hany' a ha
+      simp [this]
+    simp only [hany', hnb, Bool.or_self, Bool.not_false, ↓reduceIte]
+    have t3 : targets (addNoOpener (o2 ++ [⟨b!"target", b!"_blank"⟩])) = targets (o2 ++ [⟨b!"target", b!"_blank"⟩]) :=
+      targets_eq_of_filtEq (filtEq_addNoOpener (by decide) (filtEq_refl _ _))
+    unfold FirstTargetBlank
+    rw [t3]
+    have hnil : targets clean = [] := by
+      unfold targets
+      apply List.filter_eq_nil_iff.mpr
+      intro a ha
+      have := List.any_eq_false.mp hany' a ha
+      simpa using this
+    have : targets (o2 ++ [⟨b!"target", b!"_blank"⟩]) = [⟨b!"target", b!"_blank"⟩] := by
+      unfold targets at t2 t1 hnil ⊢
+      rw [List.filter_append, t2, t1, hnil]
+      rfl
+    rw [this]
+    exact ⟨_, rfl, by decide⟩
+
+/-- without the target option (or on another element) the block leaves the target attributes alone -/
+theorem hardenLinks_targets_kept (p : Policy) (el : Bytes) (clean : List Attr)
+    (h : (el == b!"a" && (hasHostHref clean && p.addTargetBlankToFullyQualifiedLinks)) = false) :
+    targets (p.hardenLinks el clean) = targets clean := by
+  show FiltEq b!"target" clean (p.hardenLinks el clean)
+  rw [hardenLinks_eq]
+  simp only
+  split
+  · exact filtEq_refl _ clean
+  · simp only [h, Bool.false_eq_true, ↓reduceIte, Bool.false_and, Bool.or_false]
+    repeat' (first
+      | exact filtEq_relFix (by decide) _ _ (filtEq_refl _ clean)
+      | apply filtEq_addNoOpener (by decide)
+      | apply filtEq_append _ (by show (b!"rel" : Bytes) ≠ b!"target"; decide)
+      | split)
+
+/-- the noopener clause of `C11_hardenLinks`, with "some href has a host" named `hasHostHref` -/
+theorem C11_hardenLinks_noopener (p : Policy) (el : Bytes) (clean : List Attr)
+    (hhref : (clean.filter (·.key == b!"href")).isEmpty = false)
+    (h : ((el == b!"a" &&
+        ((clean.any fun a => a.key == b!"target" && asciiEqualFold a.val b!"_blank") ||
+         ((hasHostHref clean && p.addTargetBlankToFullyQualifiedLinks) && clean.any (·.key == b!"target")))) ||
+      (el == b!"a" && (hasHostHref clean && p.addTargetBlankToFullyQualifiedLinks))) = true) :
+    HasRel (p.hardenLinks el clean) ∧ AllRel b!"noopener" (p.hardenLinks el clean) :=
+  (C11_hardenLinks p el clean hhref).2.2 h
+
+/-- **C11, target and noopener clauses, for the whole of `sanitizeAttrs`** (element `a`, a returned
+    attribute list that carries an href): with AddTargetBlankToFullyQualifiedLinks and a host-qualified
+    href the first target attribute is `_blank`; and under any link option, if some target attribute
+    of the result is `_blank`, there is a rel attribute and every rel attribute has the token noopener. -/
+theorem C11_sanitizeAttrs_target (p : Policy) (attrs : List Attr) (aps : AttrRules) (out : List Attr)
+    (h : p.sanitizeAttrs b!"a" attrs aps = some out)
+    (hhref : (out.filter (·.key == b!"href")).isEmpty = false) :
+    ((hasHostHref out && p.addTargetBlankToFullyQualifiedLinks) = true → FirstTargetBlank out) ∧
+    ((p.requireNoFollow || p.requireNoFollowFullyQualifiedLinks || p.requireNoReferrer ||
+        p.requireNoReferrerFullyQualifiedLinks || p.addTargetBlankToFullyQualifiedLinks) = true →
+      ((targets out).any fun a => asciiEqualFold a.val b!"_blank") = true →
+      HasRel out ∧ AllRel b!"noopener" out) := by
+  unfold Policy.sanitizeAttrs at h
+  split at h
+  · rename_i he; simp at h; subst h
+    rw [List.isEmpty_iff.mp he] at hhref; simp at hhref
+  · simp only at h
+    split at h
+    · rename_i he; simp at h; subst h
+      rw [List.isEmpty_iff.mp he] at hhref; simp at hhref
+    · simp only [Option.map_eq_some_iff] at h
+      obtain ⟨mid, hmid, rfl⟩ := h
+      have fh : ∀ k, k ≠ b!"crossorigin" → k ≠ b!"sandbox" →
+          (p.forceSandbox b!"a" (p.forceCrossOrigin b!"a" mid)).filter (·.key == k) = mid.filter (·.key == k) := by
+        intro k h1 h2
+        rw [forceSandbox_other_keys p _ _ k h2, forceCrossOrigin_other_keys p _ _ k h1]
+      have fhref := fh b!"href" (by decide) (by decide)
+      have frel := fh b!"rel" (by decide) (by decide)
+      have ftgt : targets (p.forceSandbox b!"a" (p.forceCrossOrigin b!"a" mid)) = targets mid :=
+        fh b!"target" (by decide) (by decide)
+      rw [fhref] at hhref
+      have hext : hasHostHref (p.forceSandbox b!"a" (p.forceCrossOrigin b!"a" mid)) = hasHostHref mid := by
+        unfold hasHostHref; rw [fhref]
+      rw [hext]
+      unfold FirstTargetBlank
+      rw [ftgt]
+      unfold Policy.linkPasses at hmid
+      have hlink : linkable b!"a" = true := by decide
+      simp only [hlink, ↓reduceIte, Option.map_eq_some_iff] at hmid
+      obtain ⟨m2, _, rfl⟩ := hmid
+      have hela : isHrefElement b!"a" = true := by decide
+      -- with any option on, the block runs: the list is non-empty (it has an href)
+      have hrun : (p.requireNoFollow || p.requireNoFollowFullyQualifiedLinks || p.requireNoReferrer ||
+          p.requireNoReferrerFullyQualifiedLinks || p.addTargetBlankToFullyQualifiedLinks) = true →
+          ((p.requireNoFollow || p.requireNoFollowFullyQualifiedLinks || p.requireNoReferrer ||
+            p.requireNoReferrerFullyQualifiedLinks || p.addTargetBlankToFullyQualifiedLinks) &&
+            decide (m2.length > 0) && isHrefElement b!"a") = true := by
+        intro hopt
+        have hlen : decide (m2.length > 0) = true := by
+          cases m2 with
+          | nil => simp [hopt] at hhref
+          | cons _ _ => simp
+        rw [hopt, hlen, hela]; rfl
+      constructor
+      · intro htb
+        have hopt : (p.requireNoFollow || p.requireNoFollowFullyQualifiedLinks || p.requireNoReferrer ||
+            p.requireNoReferrerFullyQualifiedLinks || p.addTargetBlankToFullyQualifiedLinks) = true := by
+          simp only [Bool.and_eq_true] at htb; simp [htb.2]
+        have hg := hrun hopt
+        simp only [hg, ↓reduceIte] at hhref htb ⊢
+        have hh2 : (m2.filter (·.key == b!"href")).isEmpty = false := by
+          rw [hardenLinks_other_keys p _ m2 b!"href" (by decide) (by decide)] at hhref; exact hhref
+        have hext2 : hasHostHref (p.hardenLinks b!"a" m2) = hasHostHref m2 := by
+          unfold hasHostHref; rw [hardenLinks_other_keys p _ m2 b!"href" (by decide) (by decide)]
+        rw [hext2] at htb
+        exact hardenLinks_target p m2 hh2 htb
+      · intro hopt hblank
+        have hg := hrun hopt
+        simp only [hg, ↓reduceIte] at hhref hblank frel ⊢
+        have hh2 : (m2.filter (·.key == b!"href")).isEmpty = false := by
+          rw [hardenLinks_other_keys p _ m2 b!"href" (by decide) (by decide)] at hhref; exact hhref
+        have hres : HasRel (p.hardenLinks b!"a" m2) ∧ AllRel b!"noopener" (p.hardenLinks b!"a" m2) := by
+          apply C11_hardenLinks_noopener p b!"a" m2 hh2
+          by_cases hatb : (hasHostHref m2 && p.addTargetBlankToFullyQualifiedLinks) = true
+          · simp [hatb]
+          · -- the block left the targets alone: a `_blank` was there before
+            have hatb' : ((b!"a" : Bytes) == b!"a" && (hasHostHref m2 && p.addTargetBlankToFullyQualifiedLinks)) = false := by
+              simp [hatb]
+            rw [hardenLinks_targets_kept p _ m2 hatb'] at hblank
+            have : (m2.any fun a => a.key == b!"target" && asciiEqualFold a.val b!"_blank") = true := by
+              obtain ⟨a, ha, hf⟩ := List.any_eq_true.mp hblank
+              obtain ⟨ham, hk⟩ := List.mem_filter.mp ha
+              exact List.any_eq_true.mpr ⟨a, ham, by simp [hk, hf]⟩
+            simp [this]
+        exact ⟨hasRel_of_filter frel.symm hres.1, allRel_of_filter frel.symm hres.2⟩
+
+/-- **C11, target and noopener clauses at byte level** (plain policies): on every `a` start tag with
+    an href that an HTML tokenizer reads from the returned bytes -/
+theorem C11_bytes_target (p : Policy) (hp : Plain p.ensureInit) (input : Bytes) :
+    ∀ k ∈ tokenize (p.sanitizeCore input), (k.tt = .start ∨ k.tt = .selfClosing) → k.data = b!"a" →
+      (k.attrs.filter (·.key == b!"href")).isEmpty = false →
+      ((hasHostHref k.attrs && p.ensureInit.addTargetBlankToFullyQualifiedLinks) = true → FirstTargetBlank k.attrs) ∧
+      ((p.ensureInit.requireNoFollow || p.ensureInit.requireNoFollowFullyQualifiedLinks || p.ensureInit.requireNoReferrer ||
+          p.ensureInit.requireNoReferrerFullyQualifiedLinks || p.ensureInit.addTargetBlankToFullyQualifiedLinks) = true →
+        ((targets k.attrs).any fun a => asciiEqualFold a.val b!"_blank") = true →
+        HasRel k.attrs ∧ AllRel b!"noopener" k.attrs) := by
+  intro k hk htt hel hhref
+  have hne : k.attrs ≠ [] := by intro h; rw [h] at hhref; simp at hhref
+  obtain ⟨t, _, aps, _, _, hs⟩ := reread_open_tag p hp input k hk htt hne
+  rw [hel] at hs
+  exact C11_sanitizeAttrs_target p.ensureInit t.attrs aps k.attrs hs hhref
+
 end BM.Props
